@@ -29,7 +29,15 @@ def _module_ints(mod):
             v = s.value
             if isinstance(v, ast.Constant) and type(v.value) is int:
                 out[s.targets[0].id] = v.value
-    return {k: v for k, v in out.items() if counts[k] == 1}
+    out = {k: v for k, v in out.items() if counts[k] == 1}
+    # class-level integer constants, read as self.NAME / cls.NAME / Class.NAME
+    for c in ast.walk(mod.tree):
+        if isinstance(c, ast.ClassDef):
+            for s in c.body:
+                if isinstance(s, ast.Assign) and len(s.targets) == 1 and isinstance(s.targets[0], ast.Name) \
+                        and isinstance(s.value, ast.Constant) and type(s.value.value) is int:
+                    out.setdefault('.' + s.targets[0].id, s.value.value)
+    return out
 
 
 def _ints_in(expr, consts):
@@ -43,6 +51,9 @@ def _ints_in(expr, consts):
         elif isinstance(e, ast.Name):
             if e.id in consts:
                 found.append((consts[e.id], e))
+        elif isinstance(e, ast.Attribute):
+            if ('.' + e.attr) in consts and isinstance(e.value, ast.Name):
+                found.append((consts['.' + e.attr], e))
         elif isinstance(e, ast.BinOp):
             walk(e.left)
             walk(e.right)
@@ -68,7 +79,8 @@ def mine(mods, fns=None, least=4, most=4096):
     beyond = {}
     for mod in mods:
         consts = _module_ints(mod)
-        nodes = [f.node for f in mod.funcs.values()] if fns is None else [n for n in fns if getattr(n, '_mod', mod) is mod]
+        nodes = [n for n in ast.walk(mod.tree) if isinstance(n, (ast.FunctionDef, ast.AsyncFunctionDef))] if fns is None else \
+            [n for n in fns if getattr(n, '_mod', mod) is mod]
         seen = set()
         for fn in nodes:
             compared = set()
